@@ -106,10 +106,10 @@ func C04(c *Ctx) {
 				}, Prune: func(from, to *ssa.BasicBlock) bool {
 					// loop back-edges to a re-test of the same credential (iterating over
 					// stored secrets) are not failures yet
-					return to.Dominates(b) && to != b
+					return Dominates(to, b) && to != b
 				}}
 				pos := posf(c, ifi)
-				if failSucc.Dominates(b) {
+				if Dominates(failSucc, b) {
 					// failure edge is a loop back-edge: the decision is taken at the loop exit
 					r.Info("C04.fail-report", name, "branch on "+credKinds(cs), pos, "failure edge is a loop continuation; decision checked at the loop exit")
 					continue
